@@ -40,7 +40,7 @@ Extraction "sbmodel.ml"
   (* C02 C09 *)
   player_fresh light_seek obs_color obs_pyro obs_ended obs_next state_at spec_color spec_pyro spec_ended spec_next decode
   (* C16 C12 C20 *)
-  builder_init set_start_position append_line hold_position_for finish rth_to_trajectory
+  builder_init set_start_position append_line hold_position_for hold_fast finish rth_to_trajectory rth_to_trajectory_fast
   travel_time scale_update msec_of_sec interval_expand rnd32 fadd fsub fmul fdiv fsqrt position_at
   interp_rgb rgbw_reference buf_init buf_init_from_bytes buf_init_view buf_resize buf_clear buf_prune buf_fill
   buf_append buf_extend_zeros bf_size
